@@ -159,27 +159,6 @@ def _split_top(t, sep):
     return [x.strip() for x in out]
 
 
-def conjuncts(t):
-    """Conjuncts of a filter text: `a and b`, all([a, b]), all((a, b)) - each normalised to ('eq', {l, r}) / ('not', x) / text."""
-    t = _strip(t)
-    m = re.match(r'^all\([\[(](.*)[\])]\)$', t)
-    parts = _split_top(m.group(1), ', ') if m else _split_top(t, ' and ')
-    out = []
-    for p in parts:
-        p = _strip(p)
-        if len(parts) > 1 and (re.match(r'^all\(', p) or len(_split_top(p, ' and ')) > 1):
-            out.extend(conjuncts(p))
-            continue
-        eq = _split_top(p, ' == ')
-        if len(eq) == 2:
-            out.append(('eq', frozenset(_strip(x) for x in eq)))
-        elif p.startswith('not '):
-            out.append(('not', _strip(p[4:])))
-        else:
-            out.append(p)
-    return out
-
-
 class BoolFn(object):
     """A rendered condition (possibly several fused `if` clauses) as a boolean function of its relations: and / or / not /
     all([..]) / any([..]) over atoms; == / != / is / is not atoms are one relation with a polarity (as in keyaction.atom_key)."""
